@@ -142,6 +142,7 @@ def alloc_copy(ip, st, v):
     st.notes["$clock"] = ADD(k, I(1))
     c = ip.reg.new("copy", "Obj")
     st.assume(T(copy_facts(c.s, v.t.s, k.s), "Bool"))
+    st.notes["$new_objs"] = tuple(st.notes.get("$new_objs", ())) + (c.s,)      # (constants that denote objects allocated here)
     return Opaque(c)
 
 
@@ -570,7 +571,10 @@ def call_absfn(ip, st, f, pos, kws):
         head, args = parse_type(ty)
         if head == "Tuple":
             return Tup([build(a) for a in args])
-        if head not in ("Int", "Real", "Bool", "V", "Obj"):
+        if head == "Str" and not args:
+            head = "Key"          # a string-valued user function (a key function): strings are the sort Key
+            ip.reg.need_val()
+        if head not in ("Int", "Real", "Bool", "V", "Obj", "Key"):
             raise U("abstract function result of type " + ty)
         k = counter[0]
         counter[0] += 1
@@ -648,6 +652,8 @@ def symbolic_listcomp(ip, st, snap, v):
     the snapshot `snap` of the state `st`"""
     reg = ip.reg
     sample, s2, new_consts = None, None, []
+    if not ip.spec_mode and ip.c is not None and ip.c.ghost.get("alloc"):
+        clock0(ip)      # (the clock value at function entry is ONE constant of the unit, not an unknown of the generic item)
     if not ip.spec_mode:
         # One generic item (index q, 0 <= q < n) is evaluated here, not in spec mode: the safety obligations of the
         # element expression (index in range, division by zero, callee preconditions) are emitted and its exceptions
@@ -713,8 +719,8 @@ def skolem_listcomp(ip, st, snap, s2, v, q, n, sample, new_consts, n_pc):
     x = "sk%d" % next(ip.bound)
     sub = [(q.s, x)]
     for name, sort in new_consts:
-        if name == q.s:
-            continue
+        if name == q.s or name.startswith("|dflt:"):
+            continue          # (|dflt:T|: THE default element of canonical list terms, one constant for the whole unit)
         fname = name[:-1] + "$f|"
         reg.fun_decl(fname, "(declare-fun %s (Int) %s)" % (fname, sort))
         sub.append((name, "(%s %s)" % (fname, x)))
@@ -751,6 +757,8 @@ def skolem_listcomp(ip, st, snap, s2, v, q, n, sample, new_consts, n_pc):
         nk = reg.new("clock", "Int")
         st.assume(CMP(">=", nk, k0))
         st.assume(T("(forall ((%s Int)) (=> %s (>= %s %s)))" % (x, rng, nk.s, S(c1.s)), "Bool"))
+        # (ground instance for the first item: quantifier instantiation has no term to start from)
+        st.assume(T("(=> (< 0 %s) (>= %s %s))" % (n.s, nk.s, S(c1.s).replace(x, "0")), "Bool"))
         st.notes["$clock"] = nk
         if s2.notes.get("$alloc_init"):
             assume_existing(ip, st)
